@@ -207,8 +207,9 @@ def gen_history(rng, binfo, tier="quick", long=False):
     """One concrete history. binfo: {symbol: {private, defaults, lower, upper}} of the built-ins."""
     m = Model(binfo)
     bsyms = sorted(binfo)
-    pool = [str(s) for s in rng.choice(HOSTILE_SYMBOLS, size=int(rng.integers(2, 5)), replace=False)]
-    pool += [_rand_symbol(rng) for _ in range(int(rng.integers(0, 3)))]
+    wide = tier != "quick" or long
+    pool = [str(s) for s in rng.choice(HOSTILE_SYMBOLS, size=int(rng.integers(2, 8 if wide else 5)), replace=False)]
+    pool += [_rand_symbol(rng) for _ in range(int(rng.integers(0, 5 if wide else 3)))]
     pool = [s for s in dict.fromkeys(pool) if s not in binfo]
     users = {}  # tok -> last definition op (dict)
     ever_ok = set()  # user tokens that were successfully registered at least once (own their default dicts)
@@ -427,6 +428,7 @@ class Executor:
         self.binfo = builtin_info()
         self.stats = {}
         self.maxobs = {}
+        self.ratio_seen = set()
         self.snapshot0 = self.full_snapshot()
 
     # -- bookkeeping --------------------------------------------------------------------------
@@ -594,7 +596,7 @@ class Executor:
                 viol.append(H.mk(_fresh_key(diff, self), "after register+reset() the library differs from its freshly imported state in: %s" % _diff_text(diff, self),
                                  step=None, extra={"barrier": True}))
                 return viol, False
-        return viol, True
+        return viol, not viol  # a failed registration probe means hidden state leaked: do not run further histories here
 
 
 def _tb(e):
@@ -681,8 +683,9 @@ class _History:
         sym = op["symbol"].strip() if isinstance(op["symbol"], str) else None
         if sym and VALID_SYMBOL.match(sym) and sym not in self.used_symbols:
             self.used_symbols.append(sym)
-        if op["variant"].split(":")[0] in ("valid", "inconsistent", "padded") and (op["tok"], json.dumps(op["params"], sort_keys=True), op["eq"]) not in getattr(ex, "_ratio_seen", set()):
-            ex._ratio_seen = getattr(ex, "_ratio_seen", set()) | {(op["tok"], json.dumps(op["params"], sort_keys=True), op["eq"])}
+        rkey = (op["tmpl"], json.dumps(op["params"], sort_keys=True), op["eq"])
+        if op["variant"].split(":")[0] in ("valid", "inconsistent", "padded") and rkey not in ex.ratio_seen:
+            ex.ratio_seen.add(rkey)
             r = ex.sympy_ratio(op)
             if op["eq"] == "good":
                 ex.obs("valid_def_mismatch_in_allclose_units", r)
